@@ -9,6 +9,16 @@ TRUST = ("Trusted base: CPython, Hypothesis, the reference models under lsfverif
          "'held' means held on the cases counted in the evidence file.")
 
 CHECKS = {
+    "C16": dict(
+        category="exploration",
+        technique="boundary-value enumeration (complete window L-2..L+2 at every enforcement point) plus Hypothesis-sampled far sizes, with exact-length payload construction and the accept-iff-size<=L oracle on the real engine and API",
+        text=("For the 262144-character data limit the places are StartExecution input (string and object), StartSyncExecution input, SendTaskSuccess output, a task reply, Pass / ResultSelector / Parallel / Map outputs "
+              "in terminal and non-terminal position; for the 1048576-character definition limit Create and Update; names (lengths 1, 79..82, every forbidden character, allowed punctuation) for state machines and executions; and the "
+              "25000-event history limit with a looping machine. Payloads are built to an exact JSON-text length; at or below the limit the value must come back unchanged, one above it the documented error must be answered "
+              "(InvalidExecutionInput, InvalidOutput, InvalidDefinition, InvalidName, States.DataLimitExceeded) and nothing may be stored or started."),
+        design_ref="DESIGN.md section 5 C16",
+        note="ASCII payloads in json.dumps default spacing only (see assumptions). " + TRUST,
+    ),
     "C10": dict(
         category="exploration",
         technique="model-based (stateful) property testing: Hypothesis-generated API call sequences applied to the real front end (Quart and Flask) of a running engine and to a dict reference model; responses, error types and store snapshots compared after every call",
